@@ -1181,16 +1181,24 @@ func main() {
 			w := 0
 			for _, op := range d.Ops {
 				if op.Op == "march" {
-					w += 3
+					w += 2
 				}
 			}
 			return w
 		case len(d.Fields) > 0 && d.Fields[0].Tube > 0:
-			return 14
+			if d.ParOnly {
+				return 8
+			}
+			return 30 // sequential march of NumCPU+4 blocks plus the parallel one on two OS threads
 		case d.Seam:
-			return 4
+			if len(d.Fields) >= 6 {
+				return 4
+			}
+			return 2
+		case len(d.Fields) == 1 && d.Fields[0].Hi[0]-d.Fields[0].Lo[0] == 30 && d.Fields[0].Lo[1] == 85:
+			return 9 // the 8-block canvas
 		}
-		return 5
+		return 4
 	}
 	cuts := func(race bool, parts int) []int { // boundaries that spread the marching items evenly by estimated cost
 		total := 0
@@ -1200,14 +1208,19 @@ func main() {
 			}
 		}
 		out := []int{0, split}
-		acc, p := 0, 1
-		for i := split; i < len(plan) && p < parts; i++ {
+		cur, p := 0, 1
+		for i := split; i < len(plan); i++ {
 			if (!race || plan[i].RaceSub) && (race || !plan[i].ParOnly) {
-				if acc >= p*total/parts && i > out[len(out)-1] {
+				w := weight(plan[i])
+				if race {
+					w *= 2
+				}
+				if cur > 0 && p < parts && (cur+w)*parts > total*23/20*map[bool]int{false: 1, true: 2}[race] && i > out[len(out)-1] {
 					out = append(out, i)
 					p++
+					cur = 0
 				}
-				acc += weight(plan[i])
+				cur += w
 			}
 		}
 		return append(out, len(plan))
@@ -1254,9 +1267,9 @@ func main() {
 	}
 	raceCh := make(chan childReport, 1)
 	if *fRaceBin != "" {
-		go func() { raceCh <- runSlices(*fRaceBin, true, 2) }()
+		go func() { raceCh <- runSlices(*fRaceBin, true, 3) }()
 	}
-	rep := runSlices(self, false, 4)
+	rep := runSlices(self, false, 5)
 	run.Extra["wall_s_normal_workers"] = math.Round(time.Since(t0).Seconds()*10) / 10
 	for i, d := range plan {
 		addPlain(run, d, i, rep)
